@@ -130,6 +130,7 @@ type checkResult struct {
 func runUnit(u Unit, cfg *PropConfig, tier string, workdir string, res *checkResult) {
 	e := NewEngine()
 	e.allocBound = cfg.AllocBound
+	e.propID = cfg.ID
 	dir := filepath.Join(repoDir, u.Module)
 	t0 := time.Now()
 	if err := e.Load(dir, u.Packages); err != nil {
